@@ -318,8 +318,17 @@ Definition tr_Skip (n : Z) (rd : go_reader) : ctl unit go_reader :=
     let '(rd, _, _) := (go_rd_seekcur n rd) in
     Return rd).
 
-(* NOT TRANSLATED tr_skipNested: tars/protocol/codec/codec.go:524:2: statement *ast.DeferStmt is outside the subset *)
-Definition tr_skipNested_untranslatable : unit := tt.
+Definition k_codec_maxSkipDepth : Z := 512.
+(* tars/protocol/codec/codec.go: func Reader.skipNested *)
+Definition tr_skipNested (skip : go_reader -> ctl unit (go_reader * bool)) (rd : go_reader) : ctl unit (go_reader * bool) :=
+  bindc (if (k_codec_maxSkipDepth <=? (rd_depth rd))
+      then Return (rd, true)
+      else Next rd)
+    (fun rd : go_reader =>
+    let rd := go_rd_set_depth rd (wrapS 64 ((rd_depth rd) + 1)) in
+    go_call (skip rd) (fun r__ => let '(rd, err) := r__ in
+    let rd := go_rd_set_depth rd (wrapS 64 ((rd_depth rd) - 1)) in
+    Return (rd, err))).
 
 Definition k_codec_StructEnd : Z := 11.
 (* tars/protocol/codec/codec.go: func Reader.skipFieldMap *)
